@@ -36,6 +36,10 @@ extern "C" {
 #define CO_SDO_RD               1             /*!< Object read access        */
 #define CO_SDO_WR               2             /*!< Object write access       */
 
+#define CO_SDO_SEG_NONE         0             /*!< no segmented transfer     */
+#define CO_SDO_SEG_DOWNLOAD     1             /*!< segmented download active */
+#define CO_SDO_SEG_UPLOAD       2             /*!< segmented upload active   */
+
 /******************************************************************************
 * PUBLIC TYPES
 ******************************************************************************/
@@ -51,6 +55,7 @@ typedef struct CO_SDO_SEG_T {
     uint32_t  Size;              /*!< Size of object entry                   */
     uint32_t  Num;               /*!< Number of transfered bytes             */
     uint8_t   TBit;              /*!< Segment toggle bit                     */
+    uint8_t   Dir;               /*!< Direction of active segmented transfer */
 
 } CO_SDO_SEG;
 
@@ -63,7 +68,8 @@ typedef enum CO_SDO_BLK_STATE_T {
     BLK_DOWNLOAD,                /*!< block download active                  */
     BLK_UPLOAD,                  /*!< block upload active                    */
     BLK_REPEAT,                  /*!< block upload repeat request active     */
-    BLK_DNWAIT                   /*!< block download wait for next block/end */
+    BLK_DNWAIT,                  /*!< block download wait for next block/end */
+    BLK_UPINIT                   /*!< block upload wait for start            */
 
 } CO_SDO_BLK_STATE;
 
